@@ -27,7 +27,7 @@ def strategy_(draw):
     rel = draw(st.sampled_from(['log2cpm', 'scale', 'permute_genes', 'permute_genes', 'extra_genes', 'negative']))
     factor = 1.0 if rel in ('log2cpm', 'scale') else None
     dt = ['float64', 'float32', 'int32', 'int64', 'uint16'] if rel != 'extra_genes' else ['float64', 'float32']
-    spec = copy.deepcopy(draw(gen.map_cases(factor=factor, max_cells=14 if rel == 'extra_genes' else 8, dtypes=dt)))
+    spec = copy.deepcopy(draw(gen.map_cases(factor=factor, max_cells=14 if rel in ('extra_genes', 'negative') else 8, dtypes=dt)))
     n = len(spec['query']['cells'])
     g = len(spec['query']['genes'])
     t = {'rel': rel}
@@ -54,6 +54,11 @@ def strategy_(draw):
         t['shuffle'] = draw(st.booleans())
     elif rel == 'negative':
         spec['query']['dtype'] = draw(st.sampled_from(['float32', 'float64', 'int32', 'int64']))
+        if draw(st.booleans()):
+            # dense X stored in small HDF5 chunks (as compressed files are): the negative value may sit in any
+            # chunk, also in a ragged last block of rows or columns
+            spec['query']['enc'] = 'dense'
+            spec['query']['rechunk'] = draw(st.sampled_from([[1, 1], [2, 3], [3, 1000], [1000, 2], [4, 4], [5, 3], [7, 7]]))
         t['row'] = draw(st.integers(0, n - 1))
         t['col'] = draw(st.integers(0, g - 1))
         t['value'] = draw(st.sampled_from([-1, -3, -0.5, -1e-3]))
@@ -144,7 +149,7 @@ def check(spec):
                 raise Violation('negative_raw_value_wrote_results', {})
             if csv_exists:
                 raise Violation('negative_raw_value_wrote_csv', {})
-            return Case(True, ['rel_negative', 'enc_' + q['enc']])
+            return Case(True, ['rel_negative', 'enc_' + q['enc']] + (['negative_in_chunked_dense'] if q.get('rechunk') else []))
         pa = materialize.write_map_case(da, spec)
         oa = mapping.run(da, pa, spec['cfg'])
         ob = mapping.run(db, pb, cfg_b)
